@@ -859,6 +859,9 @@ func (e *Executor) Execute(ctx context.Context, m File) (err error) {
 			}
 		}
 	}
+	// The applied part is unchanged: the rest of the file may have been
+	// edited since the last attempt, so track its current size.
+	r.Total = len(stmts)
 	e.log.Log(LogFile{m, r.Version, r.Description, r.Applied})
 	if err := e.fileChecks(ctx, m, r); err != nil {
 		e.log.Log(LogError{Error: err})
